@@ -107,8 +107,12 @@ def draw_tasks(ch, params, force_stratum=None):
         gp["provide_bias"] = 4
     progs = []
 
+    # half of the page-render task sets use element-mode programs: HTML elements, Component.id echoed into an attribute,
+    # so that the hand-over of root attributes between a parent and its root-level children is part of what is compared
+    with_elems = stratum in ("clean", "provide", "mixed") and ch.chance(1, 2, "elems")
+
     def new_prog(assets=False, library_of=None):
-        g = dict(gp, assets=assets, elems=assets, page_wrap=assets)
+        g = dict(gp, assets=assets, elems=assets or with_elems, page_wrap=assets)
         if library_of is not None:
             # a different page over the SAME component classes (class-level shared state is then really shared)
             base = progs[library_of]
@@ -187,6 +191,19 @@ def lib_frame(exc):
 
 def mask_ids(s, w):
     return ID_RE.sub(lambda m: "ID" if m.group(0) in w.used_ids else m.group(0), s)
+
+
+def canon_ids(s, w):
+    """Render ids replaced by their rank of first appearance in this output: the ids themselves differ from run to run,
+    WHICH elements carry the id of which instance (and what Component.id echoed) must not."""
+    seen = {}
+
+    def sub(m):
+        tok = m.group(0)
+        if tok not in w.used_ids:
+            return tok
+        return "#%d" % seen.setdefault(tok, len(seen))
+    return ID_RE.sub(sub, s)
 
 
 class Setup:
@@ -335,7 +352,8 @@ class Setup:
                 tpl = self.shared_templates.get(t["prog"]) if t.get("shared_template") else None
                 if tpl is None:
                     tpl = Template(emit.page_source(prog))
-                return R.normalise(str(tpl.render(Context(dict(prog["ctx"])))))
+                # comments (bookkeeping markers) dropped, render ids canonicalised - the id ATTRIBUTES stay
+                return canon_ids(R.RENDERED_RE.sub("", str(tpl.render(Context(dict(prog["ctx"]))))), w)
             return wrap(fn)
         if kind == "xrender":
             from django.template import Context, Template
